@@ -25,6 +25,7 @@ structure Rep where
 /-- the requests of the line protocol -/
 inductive RepOp where
   | write (off len tag : Nat)
+  | cwrite (n tag : Nat)                  -- n whole-block writes issued concurrently (same payload per block)
   | read (off len : Nat)
   | snap (name : String) (user : Bool)
   | mark (name : String)                  -- PrepareRemoveDisk
@@ -73,6 +74,11 @@ def step (r : Rep) : RepOp → Rep × RepOut
     | .rw   => ({ r with dd := r.dd.write off len (payload off tag), rev := r.rev + 1 }, .ok)
     | .wo   => ({ r with dd := r.dd.write off len (payload off tag) }, .ok)
     | .init => (r, .refused)
+  | .cwrite n tag =>
+    if !r.isOpen || r.mode = .init then (r, .refused) else
+    let blocks := List.range (min n r.dd.nb)
+    let dd' := blocks.foldl (fun d b => d.write (b * d.bs) d.bs (payload 0 tag)) r.dd
+    ({ r with dd := dd', rev := if r.mode = .rw then r.rev + n else r.rev }, .ok)
   | .read off len =>
     if !r.isOpen || !r.inVolume off len then (r, .refused) else
     let (dd', f) := r.dd.read off len
